@@ -82,6 +82,10 @@ impl Cfg {
             _ => ((1usize << (self.bits.min(24))) + self.min).min(self.max).max(1),
         }
     }
+    /// size unit for edits of related data: an average chunk, at most 64 KiB
+    pub fn edit_unit(&self) -> usize {
+        self.expected_avg().min(64 * 1024)
+    }
 }
 
 /// `cli`: restrict to what the command line can express (min <= avg <= max).
@@ -389,10 +393,11 @@ pub fn gen_related(src: &[u8], unit: usize) -> (Vec<Value>, Vec<u8>) {
             let kind = *t.pick(&["insert", "delete", "replace", "move", "duplicate", "truncate", "append", "swap"]);
             let len = cur.len().max(1) as u32;
             let a = t.draw(len + 1) as usize;
+            let unit = unit.clamp(1, 64 * 1024);
             let b = match t.weighted(&[3, 3, 1]) {
                 0 => 1 + t.draw(16) as usize,
-                1 => 1 + t.draw((unit.max(1) * 3).min(1 << 20) as u32) as usize,
-                _ => unit.max(1),
+                1 => 1 + t.draw((unit * 3) as u32) as usize,
+                _ => unit,
             };
             (kind, a, b, t.seed64())
         });
